@@ -3,7 +3,7 @@
 (* TLC: for EVERY cell of the decision table                               *)
 (*     Store(container, declared type, value class, value)                 *)
 (* the code-shaped model's outcome is admissible for the requirement.      *)
-(* With EMIT_FILE set in the environment the table is written as JSON      *)
+(* With EMIT_DIR set in the environment the table is written as JSON       *)
 (* (one input per cell) for the harness, which runs every cell on the real *)
 (* code.  The table is explored in two stages so that the work is spread   *)
 (* over the workers.                                                       *)
@@ -25,11 +25,18 @@ Cells(c, dt) ==
   {[c |-> c, dt |-> dt, vc |-> vc, v |-> v] :
      <<vc, v>> \in {p \in ValueClasses \X Values :
                       Applicable(c, dt, p[1], p[2])}}
-AllCells == UNION {Cells(c, dt) : <<c, dt>> \in Containers \X Types}
+(* with EMIT_DIR set, the cells of every (container, type) pair are written *)
+(* to <EMIT_DIR>/<container>_<type>.json when that pair is expanded         *)
+Emit(c, dt) ==
+  IF "EMIT_DIR" \notin DOMAIN IOEnv THEN TRUE
+  ELSE IF IOEnv.EMIT_DIR = "" THEN TRUE
+  ELSE JsonSerialize(IOEnv.EMIT_DIR \o "/" \o c \o "_" \o dt \o ".json",
+                     SetToSeq(Cells(c, dt)))
 
 Init == stage = 0 /\ cell \in {[c |-> c, dt |-> dt, vc |-> "", v |-> NoV] :
                                  <<c, dt>> \in Containers \X Types}
 Next == /\ stage = 0
+        /\ Emit(cell.c, cell.dt)
         /\ stage' = 1
         /\ cell' \in Cells(cell.c, cell.dt)
 Spec == Init /\ [][Next]_vars
@@ -44,7 +51,4 @@ ASSUME \A t \in IntTypes : Accept(t, MinOf[t]) /\ Accept(t, MaxOf[t])
          /\ ~Accept(t, V(MaxOf[t].a, MaxOf[t].d + 1))
 ASSUME \A v \in Values, w \in Values : Leq(v, w) \/ Leq(w, v)
 
-ASSUME "EMIT_FILE" \notin DOMAIN IOEnv \/ IOEnv.EMIT_FILE = "" \/
-       /\ JsonSerialize(IOEnv.EMIT_FILE, SetToSeq(AllCells))
-       /\ PrintT(<<"EMITTED", Cardinality(AllCells)>>)
 =============================================================================
